@@ -95,14 +95,14 @@ def obj_of(system, mom, vals):
 
 
 NUMPY_LAYOUTS = ["np()", "np(3)", "np(2,2)"]
-AWK_LAYOUTS = ["ak-flat", "ak-jagged", "ak-nested", "ak-option", "ak-record"]
+AWK_LAYOUTS = ["ak-flat", "ak-jagged", "ak-nested", "ak-option", "ak-record", "ak-rawzip"]
 
 
 def nest(layout):
     """shape of the nested python structure (lists of element slots; None = missing)"""
     return {"np()": "E", "np(3)": ["E", "E", "E"], "np(2,2)": [["E", "E"], ["E", "E"]],
             "ak-flat": ["E", "E", "E"], "ak-jagged": [["E", "E"], [], ["E"]], "ak-nested": [[["E"], ["E", "E"]], [], [[]]],
-            "ak-option": [["E", None], None, ["E"]], "ak-record": "E", "object": "E"}[layout]
+            "ak-option": [["E", None], None, ["E"]], "ak-record": "E", "object": "E", "ak-rawzip": [["E", "E"], [], ["E"]]}[layout]
 
 
 def fill(struct, f):
@@ -131,6 +131,16 @@ def build(layout, system, mom, rng, extras=False):
         if extras == "rich":
             arr = ak.with_field(ak.with_field(arr, ak.Array([[1, 2, 3]]), "hits"), ak.Array(["mu"]), "label")
         return arr[0], struct
+
+    if layout == "ak-rawzip":
+        # the usual user-side construction: ak.zip of columns under their (momentum) spellings, named record, vector behavior attached;
+        # unlike vector.zip / vector.Array the field names are NOT normalised to the geometric ones
+        import vector.backends.awkward as VA
+        cols = {key(n): ak.Array(struct_map(struct, lambda e, n=n: e[n])) for n in names}
+        if extras:
+            cols["charge"] = ak.Array(struct_map(struct, lambda e: int(round(e[names[0]] * 7)) % 5 - 2))
+            cols["weight"] = ak.Array(struct_map(struct, lambda e: e[names[1]] * 0.5))
+        return ak.zip(cols, with_name=f"{'Momentum' if mom else 'Vector'}{len(system) + 1}D", behavior=VA.behavior), struct
 
     def conv(e):
         r = {key(n): e[n] for n in names}
